@@ -60,6 +60,30 @@ def build(scratch, log):
     return rc == 0, out, secs
 
 
+def broken_wrappers(build_output, wrappers):
+    """compile errors of the generated tree -> (set of slice names whose wrapper contains an error, number of errors elsewhere)"""
+    broken, elsewhere = set(), 0
+    for blk in re.split(r"\n(?=error|warning)", build_output):
+        if not blk.startswith("error"):
+            continue
+        if blk.startswith("error: could not compile") or blk.startswith("error: Failed to") or blk.startswith("error: aborting"):
+            continue
+        m = re.search(r"-->\s+(\S+?):(\d+):\d+", blk)
+        if not m:
+            elsewhere += 1
+            continue
+        path, line = m.group(1), int(m.group(2))
+        hit = None
+        for name, w in wrappers.items():
+            if path.endswith(w["file"]) and w["first"] <= line <= w["last"]:
+                hit = name
+        if hit:
+            broken.add(hit)
+        else:
+            elsewhere += 1
+    return broken, elsewhere
+
+
 CHECK_RE = re.compile(r"^Check (\d+): (.+)\n\t - Status: (\w+)\n\t - Description: \"(.*)\"\n\t - Location: (.*)$", re.M)
 
 
